@@ -361,11 +361,12 @@ theorem collapse_widths_keep (widths : List Int) (wrapable : List Bool) (maxWidt
   collapseWidths_keep widths wrapable maxWidth hlen hall h1 hmw
 
 /-- `width_fits` with the "collapse keeps one cell per column" fact as a hypothesis (discharged below). -/
-theorem width_fits_of_keep (fl : Flags) (t : Table) (maxWidth : Int) (hnr : t.NoRatio) (hfree : t.AllFree)
+theorem width_fits_of_keep (fl : Flags) (t : Table) (maxWidth : Int)
+    (hfirst : ∃ ws0, t.firstWidths fl maxWidth = some ws0 ∧ ws0.length = t.columns.length ∧ ∀ w ∈ ws0, 1 ≤ w) (hfree : t.AllFree)
     (hne : t.columns ≠ []) (hnw : ∀ c ∈ t.columns, c.noWrap = false) (hmw : (t.columns.length : Int) ≤ maxWidth)
     (hkeep : ∀ ws0, t.firstWidths fl maxWidth = some ws0 → ∀ w ∈ collapseWidths ws0 t.wrapable maxWidth, 1 ≤ w) :
     ∃ ws, t.calcWidths fl maxWidth = some ws ∧ ws.sum ≤ maxWidth ∧ ws.length = t.columns.length ∧ ∀ w ∈ ws, 1 ≤ w := by
-  obtain ⟨ws0, h0, hl, hp⟩ := firstWidths_free fl t hnr hfree maxWidth
+  obtain ⟨ws0, h0, hl, hp⟩ := hfirst
   have hwrap : ∀ c ∈ t.columns, c.width = none ∧ c.noWrap = false := by
     intro c hc
     obtain ⟨i, hi, rfl⟩ := List.getElem_of_mem hc
@@ -410,18 +411,14 @@ theorem width_fits_of_keep (fl : Flags) (t : Table) (maxWidth : Int) (hnr : t.No
     have := padTarget_le fl t maxWidth
     split <;> omega
 
-/-- **width_fits.**  Every column free to wrap (no `width`, `min_width`, `no_wrap`; no active ratio), cells
-measuring `0 ≤ maximum` (what `Measurement.get` guarantees), and an available width of at least the structural
-minimum — one cell per column: `_calculate_column_widths` succeeds, gives every column at least one cell, and
-the table is NEVER wider than the width on offer.  Natural widths that fit are kept (padded at most up to
-`max_width`); wider ones are collapsed to exactly `max_width`, no column below one cell
-(`collapse_widths_keep`), and the re-measure (`maximum or 1`) can then only shrink a column. -/
-theorem width_fits (fl : Flags) (t : Table) (maxWidth : Int) (hnr : t.NoRatio) (hfree : t.AllFree)
+/-- `width_fits` from any first pass that gives every column at least one cell. -/
+theorem width_fits_core (fl : Flags) (t : Table) (maxWidth : Int)
+    (hfirst : ∃ ws0, t.firstWidths fl maxWidth = some ws0 ∧ ws0.length = t.columns.length ∧ ∀ w ∈ ws0, 1 ≤ w) (hfree : t.AllFree)
     (hne : t.columns ≠ []) (hnw : ∀ c ∈ t.columns, c.noWrap = false) (hmw : (t.columns.length : Int) ≤ maxWidth) :
     ∃ ws, t.calcWidths fl maxWidth = some ws ∧ ws.sum ≤ maxWidth ∧ ws.length = t.columns.length ∧ ∀ w ∈ ws, 1 ≤ w := by
-  apply width_fits_of_keep fl t maxWidth hnr hfree hne hnw hmw
+  apply width_fits_of_keep fl t maxWidth hfirst hfree hne hnw hmw
   intro ws0 h0
-  obtain ⟨ws0', h0', hl, hp⟩ := firstWidths_free fl t hnr hfree maxWidth
+  obtain ⟨ws0', h0', hl, hp⟩ := hfirst
   rw [h0] at h0'
   simp only [Option.some.injEq] at h0'
   subst h0'
@@ -433,6 +430,39 @@ theorem width_fits (fl : Flags) (t : Table) (maxWidth : Int) (hnr : t.NoRatio) (
     exact ⟨(hfree _ this).1, hnw _ (List.getElem_mem _)⟩
   exact collapse_widths_keep ws0 t.wrapable maxWidth (by simp [Table.wrapable, hl]) (wrapable_all t hwrap) hp (by omega)
 
+/-- **width_fits.**  Every column free to wrap (no `width`, `min_width`, `no_wrap`; no active ratio), cells
+measuring `0 ≤ maximum` (what `Measurement.get` guarantees), and an available width of at least the structural
+minimum — one cell per column: `_calculate_column_widths` succeeds, gives every column at least one cell, and
+the table is NEVER wider than the width on offer.  Natural widths that fit are kept (padded at most up to
+`max_width`); wider ones are collapsed to exactly `max_width`, no column below one cell
+(`collapse_widths_keep`), and the re-measure (`maximum or 1`) can then only shrink a column. -/
+theorem width_fits (fl : Flags) (t : Table) (maxWidth : Int) (hnr : t.NoRatio) (hfree : t.AllFree)
+    (hne : t.columns ≠ []) (hnw : ∀ c ∈ t.columns, c.noWrap = false) (hmw : (t.columns.length : Int) ≤ maxWidth) :
+    ∃ ws, t.calcWidths fl maxWidth = some ws ∧ ws.sum ≤ maxWidth ∧ ws.length = t.columns.length ∧ ∀ w ∈ ws, 1 ≤ w :=
+  width_fits_core fl t maxWidth (firstWidths_free fl t hnr hfree maxWidth) hfree hne hnw hmw
+
+/-- The first pass of a table of free columns with ANY non-negative ratios (zero included), flexible widths kept at
+their minimums (`flexNegative`, `flexClampZero` repaired), padding not negative: every column at least one cell. -/
+theorem first_widths_any_ratio (fl : Flags) (h2 : fl.flexNegative = false) (h3 : fl.flexClampZero = false) (t : Table)
+    (maxWidth : Int) (hfree : t.AllFree) (hpad : ∀ i, 0 ≤ t.paddingWidth i) (hrat : ∀ c ∈ t.columns, 0 ≤ c.ratio.getD 0) :
+    ∃ ws0, t.firstWidths fl maxWidth = some ws0 ∧ ws0.length = t.columns.length ∧ ∀ w ∈ ws0, 1 ≤ w := by
+  apply firstWidths_ge_one fl h2 h3 t maxWidth _ hpad _ hrat
+  · intro ci hci; exact (measureColumn_free t ci.2 ci.1 maxWidth (hfree ci hci)).1
+  · intro c hc
+    obtain ⟨i, hi, rfl⟩ := List.getElem_of_mem hc
+    have : (t.columns[i], i) ∈ t.indexed := by
+      unfold Table.indexed; exact List.mem_zipIdx_iff_getElem?.2 (by simp [hi])
+    rw [(hfree _ this).1]; simp
+
+/-- **width_fits with ratio columns, zero ratios included** (the `NoRatio` exclusion is gone once a zero-ratio column
+keeps its flex minimum): free columns, any non-negative ratios, expanding or not — never wider than the width on offer,
+every column at least one cell.  (Subsumes `width_fits_ratio` of Lemmas/LayoutTableRatio, which needs every ratio ≥ 1.) -/
+theorem width_fits_any_ratio (fl : Flags) (h2 : fl.flexNegative = false) (h3 : fl.flexClampZero = false) (t : Table)
+    (maxWidth : Int) (hfree : t.AllFree) (hpad : ∀ i, 0 ≤ t.paddingWidth i) (hrat : ∀ c ∈ t.columns, 0 ≤ c.ratio.getD 0)
+    (hne : t.columns ≠ []) (hnw : ∀ c ∈ t.columns, c.noWrap = false) (hmw : (t.columns.length : Int) ≤ maxWidth) :
+    ∃ ws, t.calcWidths fl maxWidth = some ws ∧ ws.sum ≤ maxWidth ∧ ws.length = t.columns.length ∧ ∀ w ∈ ws, 1 ≤ w :=
+  width_fits_core fl t maxWidth (first_widths_any_ratio fl h2 h3 t maxWidth hfree hpad hrat) hfree hne hnw hmw
+
 /-- Non-vacuity: a two-column text table that does not fit 9 cells is collapsed to exactly 9. -/
 example : ({ columns := [{ header := wCell ['a', 'b', 'c', 'd', 'e', 'f'], footer := wCell [], cells := [wCell ['1']] },
                           { header := wCell ['g', 'h', 'i', 'j', 'k', 'l', 'm', 'n'], footer := wCell [], cells := [] }],
@@ -442,15 +472,13 @@ example : ({ columns := [{ header := wCell ['a', 'b', 'c', 'd', 'e', 'f'], foote
 (`staleTableWidth` repaired) an expanding table of free columns (no `width` / `min_width` / `no_wrap`, no active ratio;
 cells measuring `0 ≤ maximum`) is EXACTLY as wide as asked at every available width of at least one cell per column —
 whether its natural widths fit or had to be collapsed, and whatever the re-measure did to the collapsed widths. -/
-theorem table_expand_exact_all (fl : Flags) (hst : fl.staleTableWidth = false) (t : Table) (maxWidth : Int)
+theorem table_expand_exact_core (fl : Flags) (hst : fl.staleTableWidth = false) (t : Table) (maxWidth : Int)
     (hexp : t.expand = true) (hfl : fl.minWidthCapsExpand = false ∨ t.minWidth = none)
-    (hnr : t.NoRatio) (hfree : t.AllFree) (hne : t.columns ≠ []) (hnw : ∀ c ∈ t.columns, c.noWrap = false)
+    (hfirst : ∃ ws0, t.firstWidths fl maxWidth = some ws0 ∧ ws0.length = t.columns.length ∧ ∀ w ∈ ws0, 1 ≤ w)
+    (hfree : t.AllFree) (hne : t.columns ≠ []) (hnw : ∀ c ∈ t.columns, c.noWrap = false)
     (hmw : (t.columns.length : Int) ≤ maxWidth) :
     ∃ ws, t.calcWidths fl maxWidth = some ws ∧ ws.sum = maxWidth ∧ ws.length = t.columns.length := by
-  obtain ⟨ws0, h0, hl, hp⟩ := firstWidths_free fl t hnr hfree maxWidth
-  have h0' := firstWidths_noRatio fl t hnr maxWidth
-  rw [h0] at h0'
-  simp only [Option.some.injEq] at h0'
+  obtain ⟨ws0, h0, hl, hp⟩ := hfirst
   by_cases hover : ws0.sum > maxWidth
   · have hwrap : ∀ c ∈ t.columns, c.width = none ∧ c.noWrap = false := by
       intro c hc
@@ -478,7 +506,42 @@ theorem table_expand_exact_all (fl : Flags) (hst : fl.staleTableWidth = false) (
       unfold Table.padCond at hc
       simp only [hexp, Bool.and_true, Bool.or_eq_true, decide_eq_true_eq, not_or] at hc
       omega
-  · exact table_expand_exact_free fl t maxWidth hexp hfl hnr hfree hne (by rw [← h0']; omega)
+  · have hne0 : ws0 ≠ [] := by
+      intro h; rw [h] at hl; simp at hl
+      exact hne (List.eq_nil_of_length_eq_zero hl.symm)
+    obtain ⟨ws, h1, h2, h3, _⟩ := table_expand_exact fl t maxWidth ws0 hexp hfl hne h0 hne0 hp (by omega)
+    exact ⟨ws, h1, h2, by omega⟩
+
+/-- …in particular for tables without active ratio columns. -/
+theorem table_expand_exact_all (fl : Flags) (hst : fl.staleTableWidth = false) (t : Table) (maxWidth : Int)
+    (hexp : t.expand = true) (hfl : fl.minWidthCapsExpand = false ∨ t.minWidth = none)
+    (hnr : t.NoRatio) (hfree : t.AllFree) (hne : t.columns ≠ []) (hnw : ∀ c ∈ t.columns, c.noWrap = false)
+    (hmw : (t.columns.length : Int) ≤ maxWidth) :
+    ∃ ws, t.calcWidths fl maxWidth = some ws ∧ ws.sum = maxWidth ∧ ws.length = t.columns.length :=
+  table_expand_exact_core fl hst t maxWidth hexp hfl (firstWidths_free fl t hnr hfree maxWidth) hfree hne hnw hmw
+
+/-- **table_expand_exact with ratio columns, zero ratios included**: with all repairs an expanding table of free columns
+with any non-negative ratios is EXACTLY as wide as asked at every available width of at least one cell per column. -/
+theorem table_expand_exact_any_ratio (fl : Flags) (hst : fl.staleTableWidth = false) (h2 : fl.flexNegative = false)
+    (h3 : fl.flexClampZero = false) (t : Table) (maxWidth : Int)
+    (hexp : t.expand = true) (hfl : fl.minWidthCapsExpand = false ∨ t.minWidth = none)
+    (hfree : t.AllFree) (hpad : ∀ i, 0 ≤ t.paddingWidth i) (hrat : ∀ c ∈ t.columns, 0 ≤ c.ratio.getD 0)
+    (hne : t.columns ≠ []) (hnw : ∀ c ∈ t.columns, c.noWrap = false) (hmw : (t.columns.length : Int) ≤ maxWidth) :
+    ∃ ws, t.calcWidths fl maxWidth = some ws ∧ ws.sum = maxWidth ∧ ws.length = t.columns.length :=
+  table_expand_exact_core fl hst t maxWidth hexp hfl (first_widths_any_ratio fl h2 h3 t maxWidth hfree hpad hrat) hfree hne hnw hmw
+
+/-- Witness (found by the C01/C09 builder): with `max(0, width)` a zero-ratio column that finds no room is handed 0 cells
+and gets one back from the `maximum or 1` re-measure after the collapse — the expanding table is ONE CELL TOO WIDE
+(7 for 6 here) at every width where the wide ordinary column wraps.  With `max(minimum, width)` it is exact. -/
+def wTableRatioZero : Table :=
+  { columns := [{ header := wCell [], footer := wCell [], cells := [], ratio := some 1 },
+                { header := wCell [], footer := wCell [], cells := [], ratio := some 0 },
+                { header := wCell ['w', 'i', 'd', 'e', ' ', 'c', 'o', 'l', 'u', 'm'], footer := wCell [], cells := [] }],
+    box := none, expandFlag := true, padding := (0, 0, 0, 0) }
+
+theorem old_ratio_zero_column_too_wide :
+    wTableRatioZero.calcWidths { Flags.allRepaired with flexClampZero := true } 6 = some [1, 1, 5] := by decide
+example : wTableRatioZero.calcWidths Flags.allRepaired 6 = some [1, 1, 4] := by decide
 
 /-- Witness: before fix f955c6c (`Flags.repaired` leaves `staleTableWidth` on) an expanding table whose ratio column was handed its flex minimum (1 + padding) and then collapsed is
 re-measured down to its content and never padded again — 4 cells instead of 6. -/
